@@ -150,6 +150,9 @@ func (r *runner) step(rc *Recipe) (res stepResult) {
 	for _, t := range b.Txs {
 		spec.Txs = append(spec.Txs, t.Raw)
 	}
+	// a block without transactions has nothing a proposer could drop: skip the proposer's trial
+	// ApplyBlock on a copy (each ApplyBlock allocates ~50 MB of signature-batch buffers)
+	spec.Strict = len(spec.Txs) == 0
 	cm, e := r.c.Step(spec)
 	if e != nil {
 		res.err = e
